@@ -6,5 +6,7 @@ export GOFLAGS=-mod=mod GOPROXY=off GOSUMDB=off GOTOOLCHAIN=local CGO_ENABLED=0
 mkdir -p bin build evidence replays
 go build -o bin/vcheck ./cmd/vcheck
 # warm the build cache for the worker (every check rebuilds it from /repo's tree)
-go build -tags verif -o build/worker.warm ./cmd/worker && rm -f build/worker.warm
+./bin/vcheck warm
+# independent Unicode oracle tables (CPython unicodedata); derived from golden/ only
+python3 py/norm.py variants golden build/uforms >/dev/null
 echo "setup ok"
